@@ -48,6 +48,9 @@ def run(tier, rep, ev):
                 cases.append({"shape": shape, "calls": [{"name": "extract", "T": T, "rec": rec, "asset": asset, "slash": slash, "sink": sink, "absent": len(cases) % 5, "recform": (len(cases) // 5) % 6}],
                               "target": "path" if len(cases) % 2 else "stream", "password": "pw" if len(cases) % 7 == 0 else None,
                               "coder": ["lzma2", "copy", "bzip2", "deflate", "copy", "bcj+lzma2", "delta+lzma2"][len(cases) % 7], "seed": si, "ending": "close",
+                              # folders without any digest (legal, never written by py7zr): members passed over in front of a selected one
+                              # must be decoded whether or not there is a CRC to compare (seed C09-7)
+                              "partialcrc": (len(cases) // 3) % 2 == 0,
                               "wd": os.path.join(base, f"c{len(cases)}")})
     # archives written by py7zr itself: a zero-length file is a zero-length stream of its folder - first, between and last in a solid folder
     E = {"kind": "empty", "folder": 0, "pos": 0, "parent": 0}
